@@ -246,9 +246,16 @@ func c04Gen(r *Rand, tier string, i int) Scenario {
 // followOpen reports whether this process holds a read-only descriptor on
 // path (the tail reader's; the harness's own writer descriptor is write-only).
 func followOpen(path string) bool {
+	open, _ := followState(path)
+	return open
+}
+
+// followState also returns the follower's position in the file (the largest
+// one, should it hold several read-only descriptors on the path).
+func followState(path string) (open bool, pos int64) {
 	ents, err := os.ReadDir("/proc/self/fd")
 	if err != nil {
-		return false
+		return false, 0
 	}
 	for _, e := range ents {
 		l, err := os.Readlink("/proc/self/fd/" + e.Name())
@@ -259,16 +266,24 @@ func followOpen(path string) bool {
 		if err != nil {
 			continue
 		}
+		ro, p := false, int64(0)
 		for _, ln := range strings.Split(string(b), "\n") {
 			if strings.HasPrefix(ln, "flags:") {
 				fl, _ := strconv.ParseInt(strings.TrimSpace(strings.TrimPrefix(ln, "flags:")), 8, 64)
-				if fl&3 == 0 {
-					return true
-				}
+				ro = fl&3 == 0
+			}
+			if strings.HasPrefix(ln, "pos:") {
+				p, _ = strconv.ParseInt(strings.TrimSpace(strings.TrimPrefix(ln, "pos:")), 10, 64)
+			}
+		}
+		if ro {
+			open = true
+			if p > pos {
+				pos = p
 			}
 		}
 	}
-	return false
+	return open, pos
 }
 
 type c04Line struct {
@@ -370,6 +385,11 @@ func c04Run(t *testing.T, s Scenario, src verifsim.DecisionSource, keep bool) *R
 				data := stream.Bytes()
 				// per byte: was the follow open when it was written?
 				openAt := make([]bool, len(data))
+				// after a rotation: the follower holds the new file open but has not read
+				// in it yet (position 0) - it may not even have sought to its end: what
+				// is written then may or may not be skipped
+				freeAt := make([]bool, len(data))
+				rotated := false
 				pos := 0
 				for wi, wr := range f.Writes {
 					w.Sleep(time.Duration(wr.DelayMs) * time.Millisecond)
@@ -398,6 +418,7 @@ func c04Run(t *testing.T, s Scenario, src verifsim.DecisionSource, keep bool) *R
 						fd, err = os.OpenFile(paths[fi], os.O_CREATE|os.O_APPEND|os.O_WRONLY, 0644)
 						must(err)
 						w.Sim.Fault("writer.rotation")
+						rotated = true
 					}
 					end := pos + wr.Len
 					if end < pos {
@@ -406,9 +427,10 @@ func c04Run(t *testing.T, s Scenario, src verifsim.DecisionSource, keep bool) *R
 					if end > len(data) {
 						end = len(data)
 					}
-					op := followOpen(paths[fi])
+					op, fpos := followState(paths[fi])
 					for k := pos; k < end; k++ {
 						openAt[k] = op
+						freeAt[k] = rotated && op && fpos == 0
 					}
 					_, err := fd.Write(data[pos:end])
 					must(err)
@@ -434,6 +456,9 @@ func c04Run(t *testing.T, s Scenario, src verifsim.DecisionSource, keep bool) *R
 							none = false
 						} else {
 							all = false
+						}
+						if freeAt[k] {
+							all, none = false, false
 						}
 					}
 					cls := 1
@@ -561,6 +586,11 @@ func c04Oracle(sc *C04Scenario, truth [][]c04Line, stdout []byte) (string, strin
 		for _, l := range truth[fi] {
 			if l.class >= 1 && (!sc.Regex || strings.Contains(l.text, ":K:")) {
 				sessionMusts++
+				if sc.Cfg.MLL > 0 && len(l.text) >= sc.Cfg.MLL {
+					// a line of MaxLineLength bytes (or more) takes one queue slot per
+					// piece, the empty remainder included
+					sessionMusts += len(l.text) / sc.Cfg.MLL
+				}
 			}
 		}
 	}
@@ -643,6 +673,14 @@ func c04Oracle(sc *C04Scenario, truth [][]c04Line, stdout []byte) (string, strin
 					gap++
 				}
 			}
+			if sc.Files[fi].RotateAt > 0 {
+				// a rotated file is judged for what is delivered (nothing old, nothing
+				// twice, nothing altered, in order), not for completeness: when the
+				// follower notices the rotation it drops what it has not read of the
+				// old file and re-opens the new one at its end; the statement does not
+				// quantify over rotation
+				gap = 0
+			}
 			if gap > 0 {
 				if sessionMusts < 100 {
 					return "line-lost", fmt.Sprintf("file %d: %d appended line(s) before %q never delivered although fewer than 100 lines were selected in the whole session (the delivery queue cannot have been full)",
@@ -681,7 +719,7 @@ func c04Oracle(sc *C04Scenario, truth [][]c04Line, stdout []byte) (string, strin
 				rest++
 			}
 		}
-		if rest > 0 {
+		if rest > 0 && sc.Files[fi].RotateAt == 0 {
 			return "line-lost", fmt.Sprintf("file %d: the last %d selected appended line(s) (including the slow sentinel lines) were never delivered", fi, rest), drops
 		}
 	}
